@@ -16,6 +16,8 @@ pub enum BandState {
     Absent,
     /// A directory without a BANDHEAD.
     Headless,
+    /// A directory whose BANDHEAD is a zero-length file (a killed write).
+    EmptyHead,
     /// (complete?, hunks of path indices, tail count offset)
     Present {
         complete: bool,
@@ -47,7 +49,7 @@ fn compositions(items: &[usize]) -> Vec<Vec<Vec<usize>>> {
 
 pub fn band_states(n_paths: usize, thorough: bool) -> Vec<BandState> {
     // (a directory without a BANDHEAD is what a backup killed during band creation leaves)
-    let mut v = vec![BandState::Absent, BandState::Headless];
+    let mut v = vec![BandState::Absent, BandState::Headless, BandState::EmptyHead];
     for mask in 0..(1u32 << n_paths) {
         let items: Vec<usize> = (0..n_paths).filter(|i| mask & (1 << i) != 0).collect();
         for hunks in compositions(&items) {
@@ -78,6 +80,10 @@ pub fn write_archive(dir: &std::path::Path, paths: &[&str], bands: &[BandState])
             BandState::Absent => {}
             BandState::Headless => {
                 std::fs::create_dir_all(dir.join(fmt06::band_dir(id as u32)).join("i")).unwrap();
+            }
+            BandState::EmptyHead => {
+                std::fs::create_dir_all(dir.join(fmt06::band_dir(id as u32)).join("i")).unwrap();
+                std::fs::write(dir.join(fmt06::band_dir(id as u32)).join("BANDHEAD"), b"").unwrap();
             }
             BandState::Present {
                 complete,
@@ -187,6 +193,7 @@ fn describe(bands: &[BandState], paths: &[&str]) -> String {
         .map(|(i, b)| match b {
             BandState::Absent => format!("b{i}:absent"),
             BandState::Headless => format!("b{i}:headless"),
+            BandState::EmptyHead => format!("b{i}:empty-head"),
             BandState::Present {
                 complete,
                 hunks,
@@ -206,6 +213,7 @@ fn state_json(b: &BandState) -> Value {
     match b {
         BandState::Absent => json!("absent"),
         BandState::Headless => json!("headless"),
+        BandState::EmptyHead => json!("empty-head"),
         BandState::Present {
             complete,
             hunks,
@@ -219,6 +227,8 @@ fn state_from_json(v: &Value) -> BandState {
         BandState::Absent
     } else if v == &json!("headless") {
         BandState::Headless
+    } else if v == &json!("empty-head") {
+        BandState::EmptyHead
     } else {
         BandState::Present {
             complete: v["complete"].as_bool().unwrap(),
